@@ -353,6 +353,19 @@ fn check_start(obs: &mut Obs) -> Option<Run> {
                     obs.violate("new/builtin-missing", format!("{name} not bound in a fresh table"));
                 }
             }
+            // ... in every fresh table, however it is constructed
+            match guard(|| {
+                let d = SymbolTable::default();
+                let missing: Vec<String> = BUILTIN_CONSTS.iter().chain(["U"].iter()).filter(|n| d.lookup(n).is_err()).map(|n| n.to_string()).collect();
+                (d == SymbolTable::new(), missing, d.verif_scope_depth(), d.verif_num_symbols())
+            }) {
+                Ok((same, missing, depth, nsym)) => {
+                    if !same || !missing.is_empty() || depth != 1 {
+                        obs.violate("default/differs-from-new", format!("SymbolTable::default(): equal to new() {same}, built-ins missing {missing:?}, {depth} scopes, {nsym} symbols"));
+                    }
+                }
+                Err(p) => obs.violate(format!("default/panic/{}", p.site()), format!("SymbolTable::default(): {}", p.msg)),
+            }
             Some(run)
         }
         Ok((_, Err((cell, d)))) => {
